@@ -50,26 +50,33 @@ def _long_cases(path, seed, n):
     open(path, "w").write("\n".join(out) + "\n")
 
 
+def _cmd(*argv):
+    """harness command with the monitor lines removed: this tie is step-level trace inclusion only; the
+    property monitors are evaluated (and attributed to known findings) by the chanh ties of C01..C09"""
+    import shlex
+    return ["sh", "-c", " ".join(shlex.quote(a) for a in argv) + " | grep -v '^!monitor'"]
+
+
 def tie(ctx):
     drv = ctx.lean_exe("fvdrv_mpsc3b")
     h = ctx.cargo_build("chan", "chanh", rustflags="--cfg loom")
     ctx.assumptions += [a for a in ASSUMPTIONS if a not in ctx.assumptions]
     if ctx.replay:
-        return [ctx.tie("mpsc3b-replay", [h, "run", ctx.replay, "--atomics"], [drv])]
+        return [ctx.tie("mpsc3b-replay", _cmd(h, "run", ctx.replay, "--atomics"), [drv])]
     ts = []
     wit = os.path.join(ctx.rundir, "mpsc3b_witnesses.case")
     open(wit, "w").write("".join(open(w).read() for w in WITNESSES if os.path.exists(w)))
-    ts.append(ctx.tie("mpsc3b-witnesses", [h, "run", wit, "--atomics"], [drv]))
+    ts.append(ctx.tie("mpsc3b-witnesses", _cmd(h, "run", wit, "--atomics"), [drv]))
     n = 1500 if ctx.quick else 40000
     cases = os.path.join(ctx.rundir, "mpsc3b_gen.case")
     mpsc3b_gen.write_cases(cases, ctx.seed, n)
-    ts.append(ctx.tie("mpsc3b-atomics-random", [h, "run", cases, "--atomics"], [drv], timeout=3000))
+    ts.append(ctx.tie("mpsc3b-atomics-random", _cmd(h, "run", cases, "--atomics"), [drv], timeout=3000))
     longc = os.path.join(ctx.rundir, "mpsc3b_long.case")
     _long_cases(longc, ctx.seed, 40 if ctx.quick else 600)
-    ts.append(ctx.tie("mpsc3b-atomics-recycling", [h, "run", longc, "--atomics"], [drv], timeout=3000))
+    ts.append(ctx.tie("mpsc3b-atomics-recycling", _cmd(h, "run", longc, "--atomics"), [drv], timeout=3000))
     ts.append(ctx.tie("mpsc3b-atomics-chanh-gen",
-                      [h, "gen", "--seed", str(ctx.seed), "--cases", "300" if ctx.quick else "6000", "--mode", "conc",
-                       "--flavours", "mpsc_b,mpsc_b_async", "--atomics"], [drv], timeout=3000))
+                      _cmd(h, "gen", "--seed", str(ctx.seed), "--cases", "300" if ctx.quick else "6000", "--mode", "conc",
+                           "--flavours", "mpsc_b,mpsc_b_async", "--atomics"), [drv], timeout=3000))
     return ts
 
 
